@@ -232,40 +232,58 @@ def diffFields (x y : Sequence) : List String :=
   ++ d "other" (sortedEntries a.other == sortedEntries b.other)
   ++ d "features" (listBeq featBeq x.features y.features)
 
+/-- the round-trip equality with the exclusions applied PER FIELD / PER FEATURE: a record outside the round-trip
+domain only because of its topology flags (`Circular && Linear`: the line has one topology word) or because of single
+features (`wfFeatureRT`: a qualifier key with `/`, a cached text that does not denote the structure) is still compared
+in everything else -/
+def seqEquivPart (x y : Sequence) : Bool :=
+  let a := x.metadata
+  let b := y.metadata
+  let amb := a.locus.circular && a.locus.linear
+  seqEquiv { x with metadata := { a with locus := { a.locus with circular := if amb then b.locus.circular else a.locus.circular,
+                                                                  linear := if amb then b.locus.linear else a.locus.linear } },
+                    features := [] } { y with features := [] }
+    && listBeq (fun f g => !wfFeatureRT f || featBeq f g) x.features y.features
+
 /-! ### the two known findings: which replies still ARE the finding
 
 A known finding is identified by the input class and by WHERE the reply fails, not by the exact bytes the
 present code happens to write: a record of the class that still fails to round-trip in the fields the finding
 names is the known finding, whatever the values there; a difference anywhere else is a new failure.
-* `C03-blank-run-at-wrap`: a metadata text may differ from the one given only if it is one that loses a blank at
-  a wrap point (`losesBlanks` / `rangeLosesBlanks`) and only in its blanks (equal after runs of blanks are
-  squeezed to one blank);
-* `C03-nameless-locus`: the LOCUS line / the locus fields may be anything; everything else must be as given
+* `C03-blank-run-at-wrap`: a metadata text may differ from the one given only in the runs of blanks that fall on a
+  wrap point of `WrapString(a, 68)` (the positions of the syntactic class), each shortened to at least one blank;
+  every other character, every other run of blanks must be as given (`allowedEq`);
+* `C03-nameless-locus`: only what the finding names is excused — the NAME and the LENGTH (whose tokens shift into
+  the name): molecule type, topology, division, date and everything outside the LOCUS line must be as given
   (up to the blank-run rule, which a name-less record may fall under as well). -/
 
-def squeezeAux (prevBlank : Bool) : Str → Str
-  | [] => []
-  | c :: r => if c == ' ' && prevBlank then squeezeAux true r else c :: squeezeAux (c == ' ') r
+/-- `w` = what `WrapString` writes for `a`; `b` is `a` except that a run of blanks which `w` replaces by a line break
+may be shorter (at least one blank): walk `w`, `a` and `b` together -/
+def allowedEq : Str → Str → Str → Bool
+  | [], a, b => a.all (· == ' ') && b.all (· == ' ') && b.length ≤ a.length
+  | '\n' :: w, a, b =>
+    let ra := (a.takeWhile (· == ' ')).length
+    let rb := (b.takeWhile (· == ' ')).length
+    1 ≤ rb && rb ≤ ra && allowedEq w (a.dropWhile (· == ' ')) (b.dropWhile (· == ' '))
+  | c :: w, a0 :: a, b0 :: b => c == a0 && c == b0 && allowedEq w a b
+  | _, _, _ => false
 
-/-- runs of blanks squeezed to one blank -/
-def squeeze (s : Str) : Str := squeezeAux false s
-
-def tEqK (lose : Bool) (a b : Str) : Bool := a == b || (lose && squeeze a == squeeze b)
+def tEqW (w a b : Str) : Bool := a == b || allowedEq w a b
 
 /-- `a` expected, `b` read -/
 def blockEqK (a b : SBlock) : Bool :=
-  let lose := if a.key == "REFERENCE".toList then rangeLosesBlanks a.num a.text else losesBlanks a.text
-  a.key == b.key && a.num == b.num && tEqK lose a.text b.text
-    && listBeq (fun (p q : Str × Str) => p.1 == q.1 && tEqK (losesBlanks p.2) p.2 q.2) a.subs b.subs
+  let w := if a.key == "REFERENCE".toList then rangeWrapped a.num a.text else StrBuild.wrapString a.text 68
+  a.key == b.key && a.num == b.num && tEqW w a.text b.text
+    && listBeq (fun (p q : Str × Str) => p.1 == q.1 && tEqW (StrBuild.wrapString p.2 68) p.2 q.2) a.subs b.subs
 
 def recEqK (a b : Rec) : Bool :=
   a.locus == b.locus && listBeq blockEqK a.blocks b.blocks && a.feats == b.feats && a.origin == b.origin
 
-def relaxText (a b : Str) : Str := if losesBlanks a && squeeze a == squeeze b then b else a
+def relaxText (a b : Str) : Str := if allowedEq (StrBuild.wrapString a 68) a b then b else a
 
 def relaxRefs : Nat → List Reference → List Reference → List Reference
   | i, r :: rs, q :: qs =>
-    { r with range := (if rangeLosesBlanks (refNum i r) r.range && squeeze r.range == squeeze q.range then q.range else r.range),
+    { r with range := (if allowedEq (rangeWrapped (refNum i r) r.range) r.range q.range then q.range else r.range),
              authors := relaxText r.authors q.authors, title := relaxText r.title q.title,
              journal := relaxText r.journal q.journal, pubMed := relaxText r.pubMed q.pubMed,
              remark := relaxText r.remark q.remark } :: relaxRefs (i + 1) rs qs
@@ -325,25 +343,34 @@ def judgeRec (kind : String) (x : Sequence) (tail : List String) : Verdict :=
     let diffs := match y with | some y => diffFields (withDefaultIndex x) y | none => ["unparsed"]
     -- `Reference.Index` is preserved when set; an unset one comes back as the position (be39eee)
     let xd := withDefaultIndex x
-    let c4 := pst == "ok" && wrst == "same" && (match y with | some y => seqEquiv xd y && codingOk x y | none => false)
-    let j := c2 && c3 && (!rtDom || c4)
+    -- judged on every record of the layout domain below 10^8 bases; `seqEquivPart` = `seqEquiv` on the round-trip domain
+    let rtJudged := layoutDom && x.sequence.length < 100000000
+    let c4 := pst == "ok" && wrst == "same" && (match y with | some y => seqEquivPart xd y && codingOk x y | none => false)
+    let j := c2 && c3 && (!rtJudged || c4)
     -- the two known findings (disjoint classes, name-less first): a FAILING case is tagged when it fails only where
     -- the finding says (see `recEqK` / `relaxTo` above); a difference anywhere else is a new failure
     let nameless := clsNameless x
     let anyKf := clsBlankRun x || nameless
-    -- name-less: the LOCUS line is the finding; with the LOCUS line of the same record under a placeholder name
-    -- in its place, the strict reader must return that record
+    -- name-less: the finding excuses the name and the length only.  Either the strict reader reads the text as it is
+    -- and everything but name / length is as given, or it does so once a placeholder name is INSERTED into the
+    -- implementation's own LOCUS line (`LOCUS   <length> bp …` without a length has no token for the name)
     let xp : Sequence := { x with metadata := { x.metadata with locus := { x.metadata.locus with name := "x".toList } } }
+    let inserted : Str :=
+      if ("LOCUS       ".toList).isPrefixOf outL then "LOCUS       x     ".toList ++ outL.drop 12 else outL
     let c3K := if nameless then
-                 (match strictRead (withFirstLine (firstLine (build xp MapOrders.id)) outL) with
-                  | some r => recEqK (abs xp) r | none => false)
+                 (match got with
+                  | some r => recEqK { abs x with locus := { (abs x).locus with name := r.locus.name, length := r.locus.length } } r
+                  | none => false)
+                 || (match strictRead inserted with | some r => recEqK (abs xp) r | none => false)
                else (match got with | some r => recEqK (abs x) r | none => false)
     let c4K := pst == "ok" && wrst == "same" && (match y with
       | some y =>
-        if nameless then seqEquiv (relaxTo { xd with metadata := { xd.metadata with locus := y.metadata.locus } } y) y
+        if nameless then
+          seqEquiv (relaxTo { xd with metadata := { xd.metadata with locus :=
+            { xd.metadata.locus with name := y.metadata.locus.name, sequenceLength := y.metadata.locus.sequenceLength } } } y) y
         else seqEquiv (relaxTo xd y) y && codingOk x y
       | none => false)
-    let kf := if anyKf && !j && c2 && c3K && (!rtDom || c4K) then
+    let kf := if anyKf && !j && c2 && c3K && (!rtJudged || c4K) then
         (if clsBlankRun x then " kf:C03-blank-run-at-wrap" else "") ++ (if nameless then " kf:C03-nameless-locus" else "")
       else ""
     -- correspondence: the writer byte for byte, the parser model where the round trip is demanded (`rtDom`).
@@ -352,9 +379,11 @@ def judgeRec (kind : String) (x : Sequence) (tail : List String) : Verdict :=
     --  * tagged (still the known finding): not a correspondence failure;
     --  * passing (the defect was repaired): drift, reported as `skip` + DIFF with the class suffix `/kf-repaired`;
     --  * failing somewhere else: an ordinary FAIL.
-    let corrStrict := outL == m && m2 == m && (!rtDom || pcorr) && cacheOk
+    let corrStrict := outL == m && m2 == m && (!rtJudged || pcorr) && cacheOk
     let repaired := anyKf && j && !corrStrict
-    let corr := if kf != "" then m2 == m && cacheOk else corrStrict
+    -- (tagged name-less: every line after the LOCUS line is still compared byte for byte)
+    let restOf (t : Str) : Str := t.dropWhile (· != '\n')
+    let corr := if kf != "" then m2 == m && cacheOk && (!nameless || restOf outL == restOf m) else corrStrict
     -- regression classes of the three repaired defects (evidence only; they are judged like every other case)
     let reg := (if clsLocusSearch x then "/locus-token" else "")
       ++ (if clsSubKeyword m || clsTopKeyword m then "/keyword-at-line-start" else "")
@@ -367,7 +396,7 @@ def judgeRec (kind : String) (x : Sequence) (tail : List String) : Verdict :=
     let why :=
       (if c2 then "" else "[builds differ]") ++ (if c3 then "" else "[strict reader: " ++
           (match strictRead outL with | some _ => "other record" | none => "rejected") ++ "]")
-        ++ (if !rtDom || c4 then "" else "[round trip: parse=" ++ pst ++ " write/read=" ++ wrst ++ " differing: " ++ ", ".intercalate diffs ++ "]")
+        ++ (if !rtJudged || c4 then "" else "[round trip: parse=" ++ pst ++ " write/read=" ++ wrst ++ " differing: " ++ ", ".intercalate diffs ++ "]")
         ++ (if layoutDom then "" else "[outside the layout domain: " ++ whyNotLayout x ++ "]")
         ++ (if pcorr then "" else "[parser model differs from the real parser on this text]")
         ++ (if cacheOk then "" else "[a cached location text reported by the real parser does not denote the structure it reported]")
@@ -378,7 +407,7 @@ def judgeRec (kind : String) (x : Sequence) (tail : List String) : Verdict :=
       judge := if layoutDom && !repaired then some j else none,
       cls := (if triv then "triv:" else "") ++ kind ++ "/feat" ++ sizeTag x.features.length ++ "/ref" ++ sizeTag x.metadata.references.length
              ++ "/other" ++ sizeTag x.metadata.other.length ++ (if wraps then "/wrap" else "") ++ (if cached then "/cached" else "")
-             ++ (if structural then "/structural" else "") ++ (if rtDom then "/rt" else if layoutDom then "/layout-only" else "/out")
+             ++ (if structural then "/structural" else "") ++ (if rtDom then "/rt" else if rtJudged then "/rt-part" else if layoutDom then "/layout-only" else "/out")
              ++ (if thmDom then "/thm" else "") ++ (if wfLayoutG x then "/lay" else "")
              ++ (if Spec.GbRoundTrip.covered x then "/pb" else "")
              ++ (if x.sequence.length > 10000 then "/long" else "") ++ reg ++ (if repaired then "/kf-repaired" else "") ++ kf,
